@@ -133,6 +133,7 @@ State0  == [vars |-> NoFrame, funcs |-> <<>>, out |-> "", depth |-> 0, inloop |-
             locked |-> {},      \* variables being traversed by forall: read-only until the loop is left
             itype |-> NoFrame,  \* loop variables of the running loops: the exact type they must keep (the element type of the
                                 \* traversed table, integer for a for loop) for as long as the loop runs
+            fl |-> -1,          \* length of out at the last flush of the stream (-1: nothing flushed since out was reset)
             unk |-> FALSE]      \* unk: the trace monitor lost track of this context (after an unpinned step)
 
 SetVar(S, n, v) == [S EXCEPT !.vars = [x \in (DOMAIN S.vars) \cup {n} |-> IF x = n THEN v ELSE S.vars[x]]]
@@ -635,7 +636,9 @@ Exec(s, S) ==
                             ELSE LET r == Eval(s.es[j], S1) IN
                                  IF Failed(r.S) THEN r.S ELSE Each([r.S EXCEPT !.out = @ \o Txt(r.v)], j + 1)
              S2 == Each(S, 1)
-         IN  IF Failed(S2) THEN S2 ELSE [S2 EXCEPT !.out = @ \o (IF s.k = "print" THEN "\n" ELSE "")]
+         \* a completed print / put flushes the stream: fl = how much of out has reached the reader (what a failing print had
+         \* already written stays in the stream until the next completed one)
+         IN  IF Failed(S2) THEN S2 ELSE LET t == S2.out \o (IF s.k = "print" THEN "\n" ELSE "") IN [S2 EXCEPT !.out = t, !.fl = Len(t)]
     [] s.k = "if" -> IfChain(s.cs, s.el, S)
     [] s.k = "while" -> [WhileLoop(s, [S EXCEPT !.inloop = @ + 1], Fuel) EXCEPT !.inloop = S.inloop]
     [] s.k = "for" ->
